@@ -8,7 +8,8 @@ Definition sid := nat.
 Definition cid := nat.
 
 (* what a call of a state function does *)
-Inductive sbeh := BNext (f : sid) | BRetry | BFinish | BNonCallable | BRaise.
+(* BFinal c: the state function calls final_status (code c) of the HasStates layer and returns its result (Finish) *)
+Inductive sbeh := BNext (f : sid) | BRetry | BFinish | BNonCallable | BRaise | BFinal (c : Z).
 (* what a call of a cleanup function does *)
 Inductive cbeh := CNone | CNext (f : sid) | CNonCallable | CRaise.
 
@@ -27,7 +28,8 @@ Inductive event :=
 | EvCleanup (owner : nat) (c : cid) (r : nat) (* cleanup installed by start request [owner] was called; r: 0 exc, 1 start, 2 stop *)
 | EvInt (r : nat)                         (* _cleanup entered with this reason (logged): 0 exc, 1 start, 2 stop *)
 | EvTrans (active : bool) (f : option sid) (* transition hook called with the new state; active: a state was set before *)
-| EvPickup (tid : nat) (cl : bool).       (* deferred task taken; cl: it installs a cleanup function (not observable on the implementation) *)
+| EvPickup (tid : nat) (cl : bool)
+| EvFinal (c : Z).                         (* final_status(c) was called by the state function just called *)       (* deferred task taken; cl: it installs a cleanup function (not observable on the implementation) *)
 
 Definition reason_code (r : reason) : nat :=
   match r with RExc => 0 | RTask (TStart _ _ _ _) => 1 | RTask (TStop _) => 2 end.
@@ -141,6 +143,7 @@ Definition turn (W : world) (s : sm) : decision :=
           match w_s W n with
           | BRetry => DRet (set_init s1 false) IReturn
           | BFinish => DRet (set_init s1 false) IBreak
+          | BFinal c => DRet (set_init (emit s1 (EvFinal c)) false) IBreak
           | BNext g => DGo (new_state W (set_init s1 false) (Some g))
           | BNonCallable => after_cleanup W (do_cleanup W (set_init s1 false) RExc)
           | BRaise => after_cleanup W (do_cleanup W s1 RExc)      (* init is not reset *)
